@@ -87,11 +87,20 @@ Print Assumptions C19_psbt_sound.
 
 (** ... and it accepts exactly the consistent PSBTs (unsigned transaction really unsigned;
     a supplied previous transaction has the spent txid, has the spent output, and agrees
-    with a supplied witness_utxo). *)
+    with a supplied witness_utxo; a witness_utxo supplied WITHOUT the previous transaction
+    is about a witness-program or p2sh output — [bare_claim_ok], the rule of /repo 6e3d302). *)
 Theorem C19_psbt_accepts :
   forall p, (exists r, streamed_post p = Some r) <-> streamable p = true.
 Proof. exact streamed_post_accepts_iff. Qed.
 Print Assumptions C19_psbt_accepts.
+
+(** Every previous output the signer is handed without its transaction is one whose spend
+    commits to the amount: a bare claim about a legacy output never gets through. *)
+Theorem C19_psbt_bare_claims :
+  forall p r, streamed_post p = Some r ->
+    forallb bare_claim_ok (p_inputs p) = true.
+Proof. exact streamed_post_bare_claims. Qed.
+Print Assumptions C19_psbt_bare_claims.
 
 (** The two together at the field level: a request's streamed PSBT decodes (to the model
     value that was encoded), and what the signer is handed is [streamed_post] of its view. *)
@@ -130,16 +139,33 @@ Example C19_psbt_nonvacuous :
   let wpk := hx "0014be18d152a9b012039daf3da7de4f53349eecb985"%string in
   let pkh := hx "76a91485cff1097fd9e008bb34af709c62197b38978a4888ac"%string in
   let prev := {| pt_txid := rep 32 1; pt_outs := [{| o_value := 5; o_spk := pkh |}; {| o_value := 7; o_spk := wpk |}] |} in
-  let p := {| p_tx := [2]; p_txins := [ {| ti_txid := rep 32 1; ti_vout := 1; ti_sig_empty := true; ti_wit_empty := true |};
-                                         {| ti_txid := rep 32 1; ti_vout := 0; ti_sig_empty := true; ti_wit_empty := true |};
-                                         {| ti_txid := rep 32 9; ti_vout := 3; ti_sig_empty := true; ti_wit_empty := true |} ];
+  let sh := hx "a914339725ba21efd62ac753a9bcd067d6c7a6a39d0587" in
+  let tin := fun id v => {| ti_txid := rep 32 id; ti_vout := v; ti_sig_empty := true; ti_wit_empty := true |} in
+  let p := {| p_tx := [2]; p_txins := [ tin 1 1; tin 1 0; tin 9 3; tin 8 0; tin 7 2 ];
               p_inputs := [ {| i_nwu := Some prev; i_wu := None |};
                             {| i_nwu := Some prev; i_wu := Some {| o_value := 5; o_spk := pkh |} |};
-                            {| i_nwu := None; i_wu := None |} ] |} in
+                            {| i_nwu := None; i_wu := None |};
+                            {| i_nwu := None; i_wu := Some {| o_value := 11; o_spk := wpk |} |};
+                            {| i_nwu := None; i_wu := Some {| o_value := 13; o_spk := sh |} |} ] |} in
   streamable p = true /\
-  exists p', streamed_post p = Some (p', [true; false; false]) /\
-             map i_wu (p_inputs p') = [Some {| o_value := 7; o_spk := wpk |}; Some {| o_value := 5; o_spk := pkh |}; None].
+  exists p', streamed_post p = Some (p', [true; false; false; false; false]) /\
+             map i_wu (p_inputs p') = [Some {| o_value := 7; o_spk := wpk |}; Some {| o_value := 5; o_spk := pkh |}; None;
+                                       Some {| o_value := 11; o_spk := wpk |}; Some {| o_value := 13; o_spk := sh |}].
 Proof. vm_compute. split; [reflexivity|]. eexists. split; reflexivity. Qed.
+
+(** ... and a bare claim about a legacy (p2pkh) output, or about a script one byte off p2sh,
+    is refused, while the same claim backed by the previous transaction is taken. *)
+Example C19_psbt_bare_legacy_refused :
+  let pkh := hx "76a91485cff1097fd9e008bb34af709c62197b38978a4888ac" in
+  let sh24 := hx "a914339725ba21efd62ac753a9bcd067d6c7a6a39d058700" in
+  let tin := {| ti_txid := rep 32 1; ti_vout := 0; ti_sig_empty := true; ti_wit_empty := true |} in
+  let one := fun i => {| p_tx := [2]; p_txins := [tin]; p_inputs := [i] |} in
+  streamed_post (one {| i_nwu := None; i_wu := Some {| o_value := 5; o_spk := pkh |} |}) = None /\
+  streamed_post (one {| i_nwu := None; i_wu := Some {| o_value := 5; o_spk := sh24 |} |}) = None /\
+  streamable (one {| i_nwu := None; i_wu := Some {| o_value := 5; o_spk := pkh |} |}) = false /\
+  exists r, streamed_post (one {| i_nwu := Some {| pt_txid := rep 32 1; pt_outs := [{| o_value := 5; o_spk := pkh |}] |};
+                                  i_wu := Some {| o_value := 5; o_spk := pkh |} |}) = Some r.
+Proof. vm_compute. repeat split. eexists. reflexivity. Qed.
 
 (** What a shared id does (the defect found in the unrepaired source, where SignRemoteHtlcTx
     and SignLocalHtlcTx2 both had #[message_id(20)]): the later arm's decoder is never
